@@ -33,7 +33,8 @@ TRUSTED = [
     "Model/SingleQubit.v [prims] mirrors by hand the five statements of _angles_for_ZYZ that prepare those functions' arguments "
     "(the translator refuses if their source text changes)",
     "Model/Qft.v is a hand model of qft_gate_sequence/_cphase_to_cnot/qft_steps, tied by exact comparison of the generated gate "
-    "lists and step matrices for N = 1..7 (quick) / 1..9 (thorough), all options",
+    "lists and step matrices for N = 1..7 (quick) / 1..9 (thorough), all options; the options mean their TRUTHINESS (model: bool), "
+    "checked with the options spelled True/False, 1/0 and numpy.bool_",
     "Model/Qft.v [rot_angles]: _angles_for_ZYZ(diag(1, e^{i phi})) = (phi/2, 0, phi/2, phi/2) for phi = pi/2^k (principal values of "
     "phase/sqrt/arctan2; cannot follow from the specifications above, which fix angles only mod 2 pi) - validated for k = 1..40",
     "real and complex analysis of Coq's standard library + Coquelicot (classical reals); IEEE round-off, Qobj.isunitary tolerance "
@@ -219,12 +220,25 @@ def upto_phase(U, D):
     return float(np.abs(U - c * D).max()), c
 
 
-def oracle_qft(N, sw, tc):
-    """-> (failure or None, real gate tuples, real step matrices)"""
+FORMS = ("bool", "int", "npbool", "mixed")
+
+
+def spell(b, form, which):
+    """the option value b (truthiness) in one of the spellings callers use: True/False, 1/0, numpy.bool_"""
+    if form == "int" or (form == "mixed" and which == "to_cnot"):
+        return 1 if b else 0
+    if form == "npbool" or (form == "mixed" and which == "swapping"):
+        return np.array([1, 0])[0] == (1 if b else 0)   # numpy.bool_ from an array comparison
+    return bool(b)
+
+
+def oracle_qft(N, sw, tc, form="bool"):
+    """-> (failure or None, real gate tuples, real step matrices); sw/tc are the TRUTH values of the options, passed to the
+    implementation in the spelling `form` (the options mean their truthiness)"""
     from qutip_qip.algorithms.qft import qft, qft_steps
     try:
-        tups = real_sequence(N, sw, tc)
-        steps = [s.full() for s in qft_steps(N, swapping=sw)]
+        tups = real_sequence(N, spell(sw, form, "swapping"), spell(tc, form, "to_cnot"))
+        steps = [s.full() for s in qft_steps(N, swapping=spell(sw, form, "swapping"))]
         Fq = qft(N).full()
     except Exception as e:
         return dict(observed=f"raised {type(e).__name__}: {e}", expected="a circuit", what="QFT: valid arguments rejected"), None, None
@@ -361,13 +375,14 @@ def check_decompose(corr, ctx, kind, U, method, methods, angles_ex):
         corr.disagree(inp, impl, model, f"decompose_one_qubit_gate({method}): returned tuple differs from the generated model")
 
 
-def check_qft(corr, ctx, N, sw, tc, tables):
-    inp = dict(kind="qft", N=N, swapping=sw, to_cnot=tc)
-    fail, tups, steps = oracle_qft(N, sw, tc)
+def check_qft(corr, ctx, N, sw, tc, tables, form="bool"):
+    inp = dict(kind="qft", N=N, swapping=sw, to_cnot=tc, form=form)
+    fail, tups, steps = oracle_qft(N, sw, tc, form)
     if fail:
-        corr.oracle_fail(inp, fail["observed"], fail["expected"], fail["what"])
-    corr.count(("qft", N, sw, tc), nontrivial=N >= 2, sample=inp)
+        corr.oracle_fail(inp, fail["observed"], fail["expected"], fail["what"] + ("" if form == "bool" else f" [options spelled as {form}]"))
+    corr.count(("qft", N, sw, tc, form), nontrivial=N >= 2, sample=inp)
     corr.tally(f"qft:N={N}")
+    corr.tally(f"qft:options-as-{form}")
     if tups is None:
         return
     mv = tables[("seq", N, sw, tc)]
@@ -462,7 +477,8 @@ def correspond(ctx):
     for N in Ns:
         for sw in (True, False):
             for tc in (False, True):
-                check_qft(corr, ctx, N, sw, tc, tables)
+                for form in FORMS:
+                    check_qft(corr, ctx, N, sw, tc, tables, form)
     rejected_stream(corr, tables0)
     check_rot_angles(corr, rows)
     # decompositions
@@ -482,14 +498,14 @@ def search(ctx, broken):
     """hunt on the real code with the property oracle only"""
     out = []
     for N in range(1, 8):
-        for sw in (True, False):
-            for tc in (False, True):
-                fail, _, _ = oracle_qft(N, sw, tc)
-                if fail:
-                    out.append(dict(input=dict(kind="qft", N=N, swapping=sw, to_cnot=tc), **fail))
-                    break
-            if out:
-                break
+        for form in FORMS:
+            for sw in (True, False):
+                for tc in (False, True):
+                    if out:
+                        break
+                    fail, _, _ = oracle_qft(N, sw, tc, form)
+                    if fail:
+                        out.append(dict(input=dict(kind="qft", N=N, swapping=sw, to_cnot=tc, form=form), **fail))
         if out:
             break
     seen = set()
@@ -511,6 +527,6 @@ def replay(ctx, rec):
         fail, _ = oracle_decompose(dec_u(inp["U"]), inp["method"])
         return fail is not None
     if inp.get("kind") == "qft":
-        fail, _, _ = oracle_qft(int(inp["N"]), bool(inp["swapping"]), bool(inp["to_cnot"]))
+        fail, _, _ = oracle_qft(int(inp["N"]), bool(inp["swapping"]), bool(inp["to_cnot"]), inp.get("form", "bool"))
         return fail is not None
     return False
